@@ -219,6 +219,34 @@ func texts(r *ev.Run) {
 			if string(at) != l.String() || a.String() != l.String() {
 				r.Violate(ev.Violation{Case: id, Class: "roundtrip", Msg: "AtomicLevel text form differs from Level's"})
 			}
+			// an AtomicLevel inside a document, however it is held (bare value, struct field of a struct
+			// passed by value or by pointer, map value): written as the level's name, read back as the level
+			type doc struct{ L zap.AtomicLevel }
+			name := `"` + l.String() + `"`
+			for how, mk := range map[string]func() ([]byte, error){
+				"bare value":                func() ([]byte, error) { return json.Marshal(a) },
+				"pointer":                   func() ([]byte, error) { return json.Marshal(&a) },
+				"field of a struct value":   func() ([]byte, error) { return json.Marshal(doc{a}) },
+				"field of a struct pointer": func() ([]byte, error) { return json.Marshal(&doc{a}) },
+				"map value":                 func() ([]byte, error) { return json.Marshal(map[string]zap.AtomicLevel{"L": a}) },
+			} {
+				b, err := mk()
+				want := name
+				if strings.Contains(how, "struct") || how == "map value" {
+					want = `{"L":` + name + `}`
+				}
+				if err != nil || string(b) != want {
+					r.Violate(ev.Violation{Case: id, Class: "roundtrip", Msg: fmt.Sprintf("AtomicLevel at %v marshalled to JSON as a %s gives %s (err %v), want %s", l, how, b, err, want)})
+					continue
+				}
+				if strings.HasPrefix(want, "{") {
+					back := doc{zap.NewAtomicLevelAt(sentinel)}
+					if err := json.Unmarshal(b, &back); err != nil || back.L.Level() != l {
+						r.Violate(ev.Violation{Case: id, Class: "roundtrip", Msg: fmt.Sprintf("AtomicLevel document %s reads back as level %v (err %v), want %v", b, back.L.Level(), err, l)})
+					}
+				}
+			}
+			r.Count("atomic_level_json_documents", 5)
 		} else if jerr == nil || yerr == nil {
 			if jerr == nil && fromJSON != l || yerr == nil && fromYAML != l {
 				r.Violate(ev.Violation{Case: id, Class: "parse-accepts-invalid", Msg: fmt.Sprintf("invalid level %d round-trips to a different level", v)})
@@ -252,7 +280,8 @@ func texts(r *ev.Run) {
 				lw := zapcore.Level(w)
 				mt, _ := lw.MarshalText()
 				jb, _ := json.Marshal(lw)
-				at, _ := zap.NewAtomicLevelAt(lw).MarshalText()
+				alw := zap.NewAtomicLevelAt(lw)
+				at, _ := alw.MarshalText()
 				if string(mt) != gen.LevelName(lw) || string(at) != gen.LevelName(lw) || string(jb) != `"`+gen.LevelName(lw)+`"` {
 					r.Violate(ev.Violation{Case: id, Class: "roundtrip", Msg: fmt.Sprintf("after a caller modified the slice an earlier MarshalText/Marshal of level %v returned (appending to it and overwriting it), level %v now marshals as text %q / AtomicLevel %q / JSON %s", l, lw, mt, at, jb)})
 					w = 6
